@@ -1,7 +1,10 @@
 """C07 -- output and local-namespace limits bound what they measure."""
+import ast
+
 import z3
 
 from contracts.common import *  # noqa: F403
+from pyvc import flow, load
 from pyvc.contract import contract
 from pyvc.run import bounded, not_covered, structural
 from pyvc.state import *  # noqa: F403
@@ -92,6 +95,66 @@ def template_get_buffer(c):
     c.ensures("render-buffer-is-limited-iff-limit-configured", post)
     c.raises()
     c.replay("code", code=REPLAY_OUTPUT)
+
+
+for _suffix in ("", "_async"):
+    def _mk(suffix):
+        @contract(TEMPLATE + ".render" + suffix, prop="C07", name=f"BoundTemplate.render{suffix}[writes-into-the-limited-buffer]")
+        def render_buffer(c):
+            env = mk_env(c)
+            t = c.obj(TEMPLATE, "template", env=env, context_class=VClass("liquid.context", "RenderContext"))
+            def get_buffer(eng, st, a, k):
+                b = st.alloc(HObj(("io", "StringIO"), {"__text__": VStr(z3.StringVal(""))}, {}, "the-limited-buffer"))
+                st.ghost["buf"] = b
+                return [(st, b)]
+            def rwc(eng, st, a, k):
+                st.log.append(("render-into", a[2] if len(a) > 2 else k.get("buffer")))
+                # rendering appends some text to the buffer it is given
+                h = st.deref(a[2])
+                h.fields["__text__"] = VStr(z3.Concat(h.fields["__text__"].t, z3.String("rendered_text")))
+                return [(st, NONE)]
+            c.summary(TEMPLATE + "._get_buffer", get_buffer)
+            c.summary(TEMPLATE + ".render_with_context" + suffix, rwc)
+            c.summary(TEMPLATE + ".make_globals", lambda eng, st, a, k: [(st, st.alloc(HDict()))])
+            c.summary("liquid.context:RenderContext", lambda eng, st, a, k: [(st, st.alloc(HObj(("liquid.context", "RenderContext"), {}, {}, "ctx")))])
+            c.call(self_val=t)
+            def post(r):
+                into = [e[1] for e in r.st.log if e[0] == "render-into"]
+                return z3.BoolVal(into == [r.st.ghost.get("buf")])
+            c.ensures("top-level-output-goes-only-into-the-buffer-from-_get_buffer", post)
+            c.ensures("returns-exactly-the-contents-of-that-buffer", lambda r: r.value.t == z3.String("rendered_text"))
+            c.raises()
+            c.replay("code", code=REPLAY_OUTPUT)
+    _mk(_suffix)
+
+
+@structural("C07", "buffer-sites")
+def buffer_sites():
+    """every text buffer of liquid/** is created by get_buffer/_get_buffer (which apply the
+    limit and the carry); block tags that buffer output pass their parent buffer"""
+    obs = []
+    made = []
+    for m in load.all_modules():
+        mod = load.get_module(m)
+        for cname, cnode in list(mod.classes.items()) + [(None, mod.tree)]:
+            for fn in [n for n in cnode.body if isinstance(n, (ast.FunctionDef, ast.AsyncFunctionDef))]:
+                for cl in flow.calls(fn):
+                    if flow.dotted(cl.func) in ("StringIO", "io.StringIO", "LimitedStringIO"):
+                        made.append(f"{m}:{cname + '.' if cname else ''}{fn.name}")
+    allowed = {"liquid.context:RenderContext.get_buffer", "liquid.template:BoundTemplate._get_buffer"}
+    extra = sorted(set(made) - allowed)
+    obs.append(flow.ob("output-buffers-are-created-only-by-get_buffer-and-_get_buffer", not extra and allowed <= set(made), str(extra), replay_schema="code", replay_extra={"code": REPLAY_OUTPUT}))
+    n = 0
+    for m in load.all_modules():
+        mod = load.get_module(m)
+        for fn in [x for x in ast.walk(mod.tree) if isinstance(x, (ast.FunctionDef, ast.AsyncFunctionDef))]:
+            for cl in flow.calls(fn):
+                if isinstance(cl.func, ast.Attribute) and cl.func.attr == "get_buffer":
+                    n += 1
+                    args = [flow.dotted(a) for a in cl.args]
+                    obs.append(flow.ob(f"{m.split('.')[-1]}.{fn.name}@{cl.lineno - fn.lineno}:nested-buffer-carries-the-parent-buffer", len(args) == 1 and args[0] in ("buffer", "self.buffer"), str(args), replay_schema="code", replay_extra={"code": REPLAY_OUTPUT}))
+    obs.append(flow.ob("nested-buffer-sites-found", n >= 5, f"{n} get_buffer call sites"))
+    return obs
 
 
 def _size_after(eng, c, func, ctx):
